@@ -94,7 +94,7 @@ func (lr *laRun) run() *laResult {
 		}
 		t0 := time.Now()
 		kr := s.Run(k)
-		if lr.Opt.Verbose {
+		if lr.Opt.Verbose && kr.Stats != nil {
 			fmt.Fprintf(os.Stderr, "%s: %d paths, %d queries, %.1fs\n", k.Name, kr.Stats.Paths, kr.Stats.Queries, time.Since(t0).Seconds())
 		}
 		res.Results = append(res.Results, kr)
@@ -267,8 +267,15 @@ func (lr *laRun) finish(res *laResult, extra map[string]interface{}) int {
 			ks["reach:"+id] = n
 		}
 		if len(kr.Asserts) == 0 && len(kr.Panics) == 0 {
-			vacuous++
-			fmt.Printf("TOOL-ERROR: kernel %s reached no assertion (vacuous harness)\n", kr.Kernel.Name)
+			if kr.Stats != nil && kr.Stats.Completed == 0 && len(kr.Stats.Unsupported) > 0 {
+				// every path ended in an instruction the engine does not model: the kernel decides nothing on
+				// this tree (said so, never counted as a pass); the other kernels and legs still run
+				fmt.Printf("INCONCLUSIVE: kernel %s is not applicable to this tree: every path ends in unsupported code (%s)\n", kr.Kernel.Name, strings.Join(kr.Stats.UnsupportedList(), "; "))
+				ks["not_applicable"] = "every path ends in unsupported code"
+			} else {
+				vacuous++
+				fmt.Printf("TOOL-ERROR: kernel %s reached no assertion (vacuous harness)\n", kr.Kernel.Name)
+			}
 		}
 		if kr.Stats != nil {
 			ks["paths"] = kr.Stats.Paths
@@ -424,6 +431,19 @@ func kernelSummary(opt *Options, prop string, lr *laRun, res *laResult) (int, ma
 				dir := filepath.Join(layera.Root(), "replays", prop, fmt.Sprintf("case%02d", ci))
 				ci++
 				res.Session.WriteReplay(st.First, dir)
+				if kr.Kernel.E2E != "" {
+					// the harness programs stubs and cannot run natively: the counterexample is confirmed by the
+					// end-to-end scenario of the kernel (real binary), or printed as unconfirmed
+					rep, detail := lr.e2e(kr.Kernel.E2E, filepath.Join(dir, "e2e"), st.First)
+					os.WriteFile(filepath.Join(dir, "e2e.txt"), []byte(detail), 0o644)
+					if !rep {
+						fmt.Printf("UNCONFIRMED: kernel=%s assert=%s fails symbolically (%s) but the end-to-end scenario %s shows no deviation, see %s\n", kr.Kernel.Name, id, fmtVals(st.First), kr.Kernel.E2E, dir)
+						continue
+					}
+					fmt.Printf("VIOLATION property=%s replay=%s\n  kernel=%s assertion=%s fails on %d paths (inputs: %s); end-to-end: %s\n", prop, dir, kr.Kernel.Name, id, st.Failed, fmtVals(st.First), strings.ReplaceAll(strings.TrimSpace(detail), "\n", " / "))
+					code = 1
+					continue
+				}
 				ok, outp := layera.RunReplay(dir)
 				os.WriteFile(filepath.Join(dir, "replay.out"), []byte(outp), 0o644)
 				if !ok {
@@ -460,9 +480,17 @@ func kernelSummary(opt *Options, prop string, lr *laRun, res *laResult) (int, ma
 			fmt.Println("TOOL-ERROR:", firstLine(f))
 			code = 2
 		}
-		if len(kr.Asserts) == 0 {
-			fmt.Printf("TOOL-ERROR: kernel %s reached no assertion\n", kr.Kernel.Name)
-			code = 2
+		if kr.NotApplicable != "" {
+			fmt.Printf("INCONCLUSIVE: kernel %s is not applicable to this tree: %s\n", kr.Kernel.Name, kr.NotApplicable)
+			ks["not_applicable"] = kr.NotApplicable
+		} else if len(kr.Asserts) == 0 {
+			if kr.Stats != nil && kr.Stats.Completed == 0 && len(kr.Stats.Unsupported) > 0 {
+				fmt.Printf("INCONCLUSIVE: kernel %s is not applicable to this tree: every path ends in unsupported code\n", kr.Kernel.Name)
+				ks["not_applicable"] = "every path ends in unsupported code"
+			} else {
+				fmt.Printf("TOOL-ERROR: kernel %s reached no assertion\n", kr.Kernel.Name)
+				code = 2
+			}
 		}
 		out[kr.Kernel.Name] = ks
 	}
